@@ -569,6 +569,39 @@ func checkDowngrade(r *Report, p *Prog) {
 			if !overDescriptors {
 				continue
 			}
+			// a break: an edge from a block of the loop body to a block outside the loop. What it delivers is the string the
+			// target returns, or the edge's operand of the string phi that merges there
+			for _, h := range hs {
+				if b == h {
+					continue
+				}
+				for _, sx := range b.Succs {
+					if underLoop(h, sx) || sx == h {
+						continue
+					}
+					empty := false
+					if rt, ok := sx.Instrs[len(sx.Instrs)-1].(*ssa.Return); ok && len(rt.Results) >= 1 && isStringType(rt.Results[0].Type()) && isEmptyStringConst(rt.Results[0]) {
+						empty = true
+					}
+					for _, in2 := range sx.Instrs {
+						ph, isPhi := in2.(*ssa.Phi)
+						if !isPhi {
+							break
+						}
+						if !isStringType(ph.Type()) {
+							continue
+						}
+						for i, pb := range sx.Preds {
+							if pb == b && isEmptyStringConst(ph.Edges[i]) {
+								empty = true
+							}
+						}
+					}
+					if empty {
+						r.Bad(rule, fmt.Sprintf("%s: the scan over the key descriptors ends only with a certificate or at the last descriptor", p.FnName(fn)), p.InstrPos(b.Instrs[len(b.Instrs)-1]), "the loop is left by a break that delivers \"\": the first descriptor of the wanted use that carries no certificate ends the search, later descriptors with a certificate are never looked at, and the response falls back to cleartext")
+					}
+				}
+			}
 			if rt, ok := b.Instrs[len(b.Instrs)-1].(*ssa.Return); ok && fn != sel && len(rt.Results) >= 1 && isEmptyStringConst(rt.Results[0]) {
 				r.Bad(rule, fmt.Sprintf("%s: the scan over the key descriptors ends only with a certificate or at the last descriptor", p.FnName(fn)), p.InstrPos(rt), "the function returns \"\" from inside the loop: the first descriptor of the wanted use that carries no certificate ends the search, later descriptors with a certificate are never looked at, and the response falls back to cleartext")
 			}
